@@ -1,0 +1,22 @@
+//go:build verif
+
+// Exported wrapper for the runtime-monitoring harness in /verif (property C44).
+// Compiled only with -tags verif. Adds no behaviour; only exposes the
+// unexported packet-processing function of the shim dispatcher.
+
+package dispatcher
+
+import "net/netip"
+
+// VerifProcessMsgNextHop is Server.processMsgNextHop: buf is the received
+// datagram, underlay the destination address of the outer IP header (as read
+// from IP_PKTINFO; the zero Addr when the dispatcher function is disabled),
+// prevHop the source of the datagram. It returns the bytes to send and the
+// address to send them to (invalid address: drop).
+func (s *Server) VerifProcessMsgNextHop(
+	buf []byte,
+	underlay netip.Addr,
+	prevHop netip.AddrPort,
+) ([]byte, netip.AddrPort, error) {
+	return s.processMsgNextHop(buf, underlay, prevHop)
+}
